@@ -102,18 +102,35 @@ def _consts_from_source():
             raise ValueError(f"read_table keyword {k} changed")
     # regex literals of NMTRANDataIO
     io_strs = [n.value for n in ast.walk(funcs["NMTRANDataIO"]) if isinstance(n, ast.Constant) and isinstance(n.value, str)]
-    for key, lit in (("commentAt", r'^[ \t]*[A-Za-z#@].*\n'), ("spaceTab", r' \t'), ("blankLine", r'^[ \t]*\n$')):
+    for key, lit in (("commentAt", r'^[ \t]*[A-Za-z#@].*(\n|$)'), ("spaceTab", r' \t'), ("blankLine", r'^[ \t]*\n')):
         if lit not in io_strs:
             raise ValueError(f"NMTRANDataIO: regex literal {lit!r} not found")
         out[key] = lit
-    if "^[" not in io_strs or "].*\n" not in io_strs:
-        raise ValueError("NMTRANDataIO: comment regexp for IGNORE=c is not '^[' + c + '].*\\n'")
-    out["commentPrefix"], out["commentSuffix"] = "^[", "].*\n"
+    # comment regexp for IGNORE=c: '^[' + re.escape(ignore_character) + r'].*(\n|$)'
+    binops = [n for n in ast.walk(funcs["NMTRANDataIO"]) if isinstance(n, ast.BinOp) and isinstance(n.op, ast.Add)
+              and isinstance(n.left, ast.BinOp) and isinstance(n.left.op, ast.Add)]
+    shape = None
+    for b in binops:
+        l, m, r = b.left.left, b.left.right, b.right
+        if isinstance(l, ast.Constant) and isinstance(r, ast.Constant):
+            esc = isinstance(m, ast.Call) and getattr(m.func, "attr", "") == "escape" and len(m.args) == 1 \
+                and isinstance(m.args[0], ast.Name) and m.args[0].id == "ignore_character"
+            plain = isinstance(m, ast.Name) and m.id == "ignore_character"
+            if esc or plain:
+                shape = (l.value, r.value, bool(esc))
+    if shape is None:
+        raise ValueError("NMTRANDataIO: comment regexp for IGNORE=c is not prefix + [re.escape](ignore_character) + suffix")
+    out["commentPrefix"], out["commentSuffix"], out["commentEscaped"] = shape
     cf_strs = [n.value for n in ast.walk(funcs["convert_fortran_number"]) if isinstance(n, ast.Constant) and isinstance(n.value, str)]
     short = [s for s in cf_strs if s.startswith("([")]
     if len(short) != 1:
         raise ValueError("convert_fortran_number: short-form regex not found")
     out["shortRegex"] = short[0]
+    fns = [n.func.attr for n in ast.walk(funcs["convert_fortran_number"]) if isinstance(n, ast.Call)
+           and isinstance(n.func, ast.Attribute) and n.args and isinstance(n.args[0], ast.Constant) and n.args[0].value == short[0]]
+    if len(fns) != 1 or fns[0] not in ("match", "fullmatch", "search"):
+        raise ValueError("convert_fortran_number: how the short-form regex is applied is not recognised")
+    out["shortMatchFn"] = fns[0]
     lims = [n.comparators[0].value for n in ast.walk(funcs["_convert_data_item"]) if isinstance(n, ast.Compare)
             and isinstance(n.ops[0], ast.Gt) and isinstance(n.comparators[0], ast.Constant) and isinstance(n.comparators[0].value, int)]
     if len(lims) != 1:
@@ -161,6 +178,8 @@ def translate_consts():
              "namespace Pharmpy.C13.Generated", ""]
     for k in ("sepRegex", "commentAt", "commentPrefix", "commentSuffix", "spaceTab", "blankLine", "shortRegex"):
         lines.append(f"def {k} : String := {_lean_str(c[k])}")
+    lines.append(f"def shortMatchFn : String := {_lean_str(c['shortMatchFn'])}")
+    lines.append(f"def commentEscaped : Bool := {'true' if c['commentEscaped'] else 'false'}")
     lines.append(f"def itemLimit : Nat := {c['itemLimit']}")
     lines.append("def specialCols : List String := [" + ", ".join(_lean_str(s) for s in c["specialCols"]) + "]")
     lines.append("def dateCols : List String := [" + ", ".join(_lean_str(s) for s in c["dateCols"]) + "]")
@@ -367,11 +386,11 @@ def gen_read_case(rng: random.Random):
         hdr = ",".join(nm for nm in names)
         if ic == "@":
             extra.append((0, rng.choice(["", " ", "\t"]) + hdr))
-        elif ic not in "^\\":
+        else:
             extra.append((0, ic + hdr))
     if rng.random() < 0.2:
         pos = rng.randint(0, len(lines))
-        c = ic if ic not in "@^\\" else rng.choice(["#", "A comment", " text", "@x"])
+        c = ic if ic != "@" else rng.choice(["#", "A comment", " text", "@x"])
         extra.append((pos, c + rng.choice([" skipped 1,2,3", "1,2", "", " x"])))
     if rng.random() < 0.06:
         extra.append((rng.randint(0, len(lines)), "#" + "1,2"))
@@ -385,7 +404,7 @@ def gen_read_case(rng: random.Random):
     if rng.random() < 0.85:
         text += "\n"
     elif rng.random() < 0.15:
-        text += "\n" + (ic if ic not in "@^\\" else "#") + "end"
+        text += "\n" + (ic if ic != "@" else "#") + "end"
     if rng.random() < 0.03:
         text += "\n"
     mode = wchoice(rng, [(0, 58), (1, 32), (2, 10)])
@@ -448,17 +467,20 @@ def corpus_cases():
         _rc("1,2,3\n4,5,6,7\n", ["A", "B", "C"]),          # later surplus row: fine
         # short first row cuts later complete rows
         _rc("1,2\n4,5,6,7\n", ["A", "B", "C", "D"]),
-        # single blank line in the middle is accepted
+        # single blank line in the middle (accepted before 8ee6a73)
         _rc("1,2\n\n4,3\n", ["A", "B"]),
         _rc("1,2\n\n\n4,3\n", ["A", "B"]),
-        # signed mantissa with D exponent is rejected
+        # signed mantissa with D exponent (rejected before d532311)
         _rc("1,-5D1\n", ["A", "B"]),
-        # malformed number accepted
+        # malformed number (accepted before d532311)
         _rc("1,2-1-3\n", ["A", "B"]),
-        # comment on an unterminated last line is kept
+        # comment on an unterminated last line (kept before 82e4d59)
         _rc("1,2\n#4,3", ["A", "B"]),
-        # IGNORE=^
+        # IGNORE=^ (re.error before 0a05222)
         _rc("1,2\n", ["A", "B"], ic="^"),
+        _rc("^c\n1,2\n\\x\n", ["A", "B"], ic="^"),
+        _rc("\\c\n1,2\n", ["A", "B"], ic="\\"),
+        _rc("1,2\n  ", ["A", "B"]),
         # missing-data token in ID
         _rc("-99,1\n1,3\n", ["ID", "B"]),
         _rc("-99,1\n1,3\n-99,2\n", ["ID", "B"]),
@@ -770,6 +792,9 @@ def ref_read(case, emu=frozenset()):
         if " \t" in l:
             return ["err", "DatasetError:space-tab"]
     blanks = [i for i, l in enumerate(lines) if l.strip(" \t") == ""]
+    if blanks and "blank" not in emu and all(i >= len(term) for i in blanks):
+        # only the unterminated remainder of the text is blank: "line" or trailing white space? not decided
+        raise Unspec("blank-remainder", fired)
     if blanks:
         if "blank" in emu:
             # the code's regexp only sees a blank newline-terminated line that is followed by an empty line
@@ -1029,6 +1054,7 @@ def run_case(case, drv):
         else:
             # which known defects could apply to this text? try emulating them, smallest set first
             found = None
+            loose = None
             flags = list(EMU_CLASS)
             for size in range(1, 4):
                 for sub in itertools.combinations(flags, size):
@@ -1036,16 +1062,17 @@ def run_case(case, drv):
                         r2 = ref_read(case, frozenset(sub))
                     except Unspec as u2:
                         # the emulated defects all took effect, afterwards the documented rules do not decide
-                        if u2.fired == frozenset(sub):
-                            found = sub
-                            tags.append("ref:known-defect-then-unspecified")
-                            break
+                        if loose is None and u2.fired == frozenset(sub):
+                            loose = sub
                         continue
                     if ref_matches(r2, real, case):
                         found = sub
                         break
                 if found:
                     break
+            if not found and loose:      # an exact reproduction is preferred to "took effect, then undecided"
+                found = loose
+                tags.append("ref:known-defect-then-unspecified")
             refd = ref[:2] if ref[0] == "err" else "ok table"
             reald = real[:3] if real[0] == "err" else "ok table"
             if found:
